@@ -21,7 +21,7 @@ RULE = ('cases = parameter sets x geometry x RSD x {box observer, light-cone ori
         'factorial mass{1e11,10^12.5,1e13,1e14,1e15} x multiplicity{1,0.3,0} x secondary ranks(4 triples) x stored random '
         '{0,1e-12,0.999,1, every cumulative marker of every subset -1e-9/exact/+1e-9, middle of every slice} for halos, and '
         'carrier halos (mass x secondary x central outcome none/LRG/ELG/QSO) x weight{1,0.3,0.01,0} x particle ranks(3) x '
-        'the same random alphabet for particles. Every host/particle of every run is decided by hod_ref and every galaxy '
+        'the same random alphabet for particles; the tracer dict is passed in reverse insertion order when Nthread != 1. Every host/particle of every run is decided by hod_ref and every galaxy '
         'row compared. non-trivial = distinct (parameter set, ic, subset, RSD mode, tracer, central/satellite) whose '
         'catalogue part is non-empty and does not contain every host')
 ASSUMPTIONS = ['widths are obtained by calling the package\'s own mean-occupation functions (the property defines them so)',
@@ -330,7 +330,7 @@ def run(case):
     # ---- selections are nested as incompleteness grows
     if len(ps['ics']) > 1:
         ics = sorted(ps['ics'])
-        kc_free = not any(w in psname for w in ('ab', 'conf'))
+        kc_free = not ({'ab', 'conf'} & set(psname.split('+')))   # ELG satellite widths then do not depend on the host's central
         for sub in R.SUBSETS:
             for kind in ('cent', 'sat'):
                 if kind == 'sat' and not kc_free and sub[0] == 1:
